@@ -9,7 +9,9 @@
 // narrow stage E3 "incarnations" (one address, 13 tokens, depth 6/7) aimed at the destruct / re-create /
 // IntermediateRoot interplay of the storage tiers, and E4 "multi-transaction slot histories" (one account,
 // 10 tokens, depth 7/8, fresh and committed slot) aimed at writes to one slot spread over several
-// transactions of a block with nested snapshots. See DESIGN.md section 4 / C08 and the `rule` written
+// transactions of a block with nested snapshots, and E5 "destruct markers under a snapshot tree". E3-E5 run
+// each sequence "hot" (getters after every token) and "cold" (no getter before the end), in trie mode and
+// with a snapshot tree (read-back through it must equal the model and a trie-only reopen). See DESIGN.md section 4 / C08 and the `rule` written
 // into the evidence.
 package main
 
@@ -60,14 +62,18 @@ var (
 	midBestKey string
 )
 
-func orderKey(prog []Op, mode int) string {
-	return fmt.Sprintf("%03d|%s|%d", len(prog), progString(prog), mode)
+func orderKey(prog []Op, c runCfg) string {
+	cold := 0
+	if c.Cold {
+		cold = 1
+	}
+	return fmt.Sprintf("%03d|%s|%d|%d", len(prog), progString(prog), c.Mode, cold)
 }
 
 func recordFailure(prog []Op, c runCfg, f *failure) {
 	cp := append([]Op{}, prog...)
 	if isMidTx(f) {
-		k := orderKey(prog, c.Mode)
+		k := orderKey(prog, c)
 		failMu.Lock()
 		midCount[f.class()]++
 		if midBest == nil || k < midBestKey {
@@ -88,6 +94,9 @@ func stopped() bool { return atomic.LoadInt32(&stopFlag) != 0 || r.Expired() }
 
 func execute(prog []Op, c runCfg) {
 	atomic.AddInt64(&cntPrograms, 1)
+	if c.Cold {
+		atomic.AddInt64(&cntColdProgs, 1)
+	}
 	if c.Mode != modeTrie {
 		atomic.AddInt64(&cntSnapProgs, 1)
 	}
@@ -260,6 +269,9 @@ func makeSig(p []Op, c runCfg, f *failure) string {
 	if c.Mode != modeTrie {
 		s += "|mode=" + modeName[c.Mode]
 	}
+	if c.Cold {
+		s += "|obs=cold"
+	}
 	return s
 }
 
@@ -268,6 +280,8 @@ type replayCase struct {
 	ModeName string   `json:"mode_name"`
 	ObsEvery bool     `json:"obs_every"`
 	ObsAddrs int      `json:"obs_addrs,omitempty"`
+	Cold     bool     `json:"cold,omitempty"`
+	ColdTail int      `json:"cold_tail,omitempty"`
 	Ops      []string `json:"ops"`
 	FoundIn  []string `json:"found_in,omitempty"`
 	Detail   string   `json:"detail,omitempty"`
@@ -291,7 +305,7 @@ func processFailures() {
 	// deterministic order: shorter first, then by text, then by mode
 	keys := make([]string, len(fs))
 	for i := range fs {
-		keys[i] = orderKey(fs[i].prog, fs[i].cfg.Mode)
+		keys[i] = orderKey(fs[i].prog, fs[i].cfg)
 	}
 	idx := make([]int, len(fs))
 	for i := range idx {
@@ -303,6 +317,9 @@ func processFailures() {
 	var reps []int
 	for _, i := range idx {
 		g := fs[i].f.class() + "|" + sigHistory(fs[i].prog) + "|" + modeName[fs[i].cfg.Mode]
+		if fs[i].cfg.Cold {
+			g += "|cold"
+		}
 		if isMidTx(&fs[i].f) {
 			g = midTxSig
 		}
@@ -351,7 +368,7 @@ func processFailures() {
 				"touched-empty and self-destructed accounts survive Finalise/Commit on the copy, dirty storage is not finalised, the refund counter is not cleared. e.g. %s; minimal history [%s]; consequences seen in this run: %s",
 				firstLine(f2.Detail), progString(o.prog), strings.Join(midList, ", "))
 		}
-		rc := replayCase{Mode: o.cfg.Mode, ModeName: modeName[o.cfg.Mode], ObsEvery: o.cfg.ObsEvery, ObsAddrs: o.cfg.ObsAddrs, Ops: progStrings(o.prog), FoundIn: progStrings(orig.prog), Detail: f2.Detail}
+		rc := replayCase{Mode: o.cfg.Mode, ModeName: modeName[o.cfg.Mode], ObsEvery: o.cfg.ObsEvery, ObsAddrs: o.cfg.ObsAddrs, Cold: o.cfg.Cold, ColdTail: o.cfg.ColdTail, Ops: progStrings(o.prog), FoundIn: progStrings(orig.prog), Detail: f2.Detail}
 		p, c := o.prog, o.cfg
 		r.ViolationConfirmed(sig, what, rc, func() string {
 			f3, ok := run(p, c, nil)
@@ -404,6 +421,7 @@ type stageInfo struct {
 	Name      string `json:"name"`
 	Programs  int64  `json:"programs_in_stage"`
 	Completed int64  `json:"programs_completed"`
+	Executed  int64  `json:"executions_on_the_real_object"`
 	Finished  bool   `json:"finished"`
 }
 
@@ -428,6 +446,7 @@ func stageE1(name string, alP, alB []Op, pl, bl int, fins [][]Op, nest bool, sna
 	vars := nestVariants(bl, nest)
 	nP, nB := ipow(len(alP), pl), ipow(len(alB), bl)
 	total := nP * int64(nF) * nB * int64(len(vars))
+	before := atomic.LoadInt64(&cntPrograms)
 	done := par.For(total, 64, stopped, func(idx int64) {
 		x := idx
 		bi := x % nB
@@ -459,10 +478,15 @@ func stageE1(name string, alP, alB []Op, pl, bl int, fins [][]Op, nest bool, sna
 		prog = append(prog, Op{K: kRevert, V: 0}, Op{K: kAddLog, A: 0, V: 2}, Op{K: kCommit, V: 1})
 		execute(prog, runCfg{Mode: modeTrie})
 		if snapToo && pl > 0 && len(fins[fi]) > 0 && fins[fi][0].K != kFinalise {
+			// with the snapshot tree: a change of ANOTHER account (a2) before the closing commit, so that
+			// the commit is a state transition and this block's destruct set reaches the snapshot tree
+			n := len(prog)
+			progS := append(append([]Op{}, prog[:n-1]...), Op{K: kAddBalance, A: 2, V: 1}, prog[n-1])
+			execute(progS, runCfg{Mode: modeSnapDiff})
 			execute(prog, runCfg{Mode: modeSnapDiff})
 		}
 	})
-	stages = append(stages, stageInfo{Name: name, Programs: total, Completed: done, Finished: done == total})
+	stages = append(stages, stageInfo{Name: name, Programs: total, Completed: done, Executed: atomic.LoadInt64(&cntPrograms) - before, Finished: done == total})
 	if done != total {
 		r.NotExhaustive(fmt.Sprintf("stage %s stopped after %d of %d programs", name, done, total))
 	}
@@ -478,6 +502,7 @@ func stageE2(name string, al []Op, L int, modes func(prog []Op) []int) {
 		return
 	}
 	total := ipow(len(al), L)
+	before := atomic.LoadInt64(&cntPrograms)
 	done := par.For(total, 64, stopped, func(idx int64) {
 		prog := make([]Op, 0, L+1)
 		x := idx
@@ -490,7 +515,7 @@ func stageE2(name string, al []Op, L int, modes func(prog []Op) []int) {
 			execute(prog, runCfg{Mode: m, ObsEvery: true})
 		}
 	})
-	stages = append(stages, stageInfo{Name: name, Programs: total, Completed: done, Finished: done == total})
+	stages = append(stages, stageInfo{Name: name, Programs: total, Completed: done, Executed: atomic.LoadInt64(&cntPrograms) - before, Finished: done == total})
 	if done != total {
 		r.NotExhaustive(fmt.Sprintf("stage %s stopped after %d of %d sequences", name, done, total))
 	}
@@ -616,8 +641,8 @@ func usefulProgram(prog []Op) bool {
 	return len(msnaps) == 0
 }
 
-func stageInc(name string, L int, modes func(prog []Op) []int) {
-	stageSeq(name, incarnationAlphabet(), nil, Op{K: kCommit, V: 1}, L, modes)
+func stageInc(name string, L int, v seqVariants) {
+	stageSeq(name, incarnationAlphabet(), nil, Op{K: kCommit, V: 1}, L, v)
 }
 
 // enumeration E4 "multi-transaction slot histories": one account, writes to the same slot spread over
@@ -644,7 +669,7 @@ func slotHistoryBases() (names []string, prefixes [][]Op) {
 		[][]Op{nil, {{K: kSetState, A: 0, S: 0, V: 1}, {K: kCommit, V: 0}}}
 }
 
-func stageSlots(name string, L int, modes func(prog []Op) []int) {
+func stageSlots(name string, L int, modes seqVariants) {
 	names, prefixes := slotHistoryBases()
 	for i := range prefixes {
 		// closed by Commit(false): the account holds nothing but storage, Commit(true) would delete it
@@ -652,9 +677,73 @@ func stageSlots(name string, L int, modes func(prog []Op) []int) {
 	}
 }
 
+// enumeration E5 "destruct markers under a snapshot tree": a sub-alphabet of E3 (8 tokens) that reaches
+// depth 7/8 WITH a snapshot tree attached: the per-block destruct set (stateObjectsDestruct) is not
+// observable through getters; it only shows in what Commit hands to the snapshot tree. Covers both
+// polarities of resetObjectChange.prevdestruct: CreateAccount over an existing account inside a
+// reverted snapshot (marker must go), and over an account destructed earlier in the same block by
+// Suicide+Finalise or by an earlier CreateAccount (marker must stay).
+func destructMarkerAlphabet() []Op {
+	return []Op{
+		{K: kAddBalance, A: 0, V: 1},
+		{K: kSetState, A: 0, S: 0, V: 1},
+		{K: kCommit, V: 1},
+		{K: kCreateAccount, A: 0},
+		{K: kSuicide, A: 0},
+		{K: kFinalise, V: 1},
+		{K: kSnapshot},
+		{K: kRevert, V: -1},
+	}
+}
+
+func stageMarkers(name string, L int, v seqVariants) {
+	stageSeq(name, destructMarkerAlphabet(), nil, Op{K: kCommit, V: 1}, L, v)
+}
+
+// seqVariants: how each useful sequence of a deep, narrow stage is executed.
+//   - trie hot: seq + closing, all getters of a0 after every token (as before);
+//   - trie cold: the same program, but no getter is called before the end of seq (observations warm
+//     originStorage / the live-object set and can hide a wrong read path);
+//   - snapshot modes: seq + AddBalance(a1,1) + closing, observing a0 and a1. The change of ANOTHER
+//     account makes the closing commit a state transition, so the block's destruct set / account /
+//     storage maps always reach the snapshot tree (StateDB.Commit skips snaps.Update when the root
+//     did not change); read-back through the snapshot layers vs the model, and vs a trie-only
+//     StateDB opened at the same root (cross-backing).
+type seqVariants struct {
+	noTrie    bool // only the snapshot-mode executions (the trie executions of these sequences belong to another stage / tier)
+	trieCold  bool
+	snapModes []int
+	snapCold  bool
+}
+
+var (
+	svTrie         = seqVariants{trieCold: true}
+	svTrieSnapDiff = seqVariants{trieCold: true, snapModes: []int{modeSnapDiff}, snapCold: true}
+	svSnapDiffHot  = seqVariants{noTrie: true, snapModes: []int{modeSnapDiff}}
+	svAll          = seqVariants{trieCold: true, snapModes: []int{modeSnapDiff, modeSnapFlat}, snapCold: true}
+)
+
+func (v seqVariants) String() string {
+	s := "trie hot"
+	if v.trieCold {
+		s += "+cold"
+	}
+	if v.noTrie {
+		s = "no trie-mode execution"
+	}
+	for _, m := range v.snapModes {
+		s += ", " + modeName[m] + " hot"
+		if v.snapCold {
+			s += "+cold"
+		}
+	}
+	return s
+}
+
 // stageSeq: every sequence of length L over al, after prefix, closed by closing; pre-pass pruned;
-// all getters of a0 compared with the model after every token.
-func stageSeq(name string, al []Op, prefix []Op, closing Op, L int, modes func(prog []Op) []int) {
+// executed in the variants above.
+func stageSeq(name string, al []Op, prefix []Op, closing Op, L int, v seqVariants) {
+	name = name + " (" + v.String() + ")"
 	if skipStage(name) {
 		return
 	}
@@ -663,8 +752,10 @@ func stageSeq(name string, al []Op, prefix []Op, closing Op, L int, modes func(p
 		return
 	}
 	total := ipow(len(al), L)
+	before := atomic.LoadInt64(&cntPrograms)
+	other := Op{K: kAddBalance, A: 1, V: 1}
 	done := par.For(total, 256, stopped, func(idx int64) {
-		var buf [16]Op
+		var buf, buf2 [18]Op
 		prog := append(buf[:0], prefix...)
 		x := idx
 		for k := 0; k < L; k++ {
@@ -675,12 +766,22 @@ func stageSeq(name string, al []Op, prefix []Op, closing Op, L int, modes func(p
 			atomic.AddInt64(&cntIncPruned, 1)
 			return
 		}
+		progS := append(append(buf2[:0], prog...), other, closing)
 		prog = append(prog, closing)
-		for _, m := range modes(prog) {
-			execute(prog, runCfg{Mode: m, ObsEvery: true, ObsAddrs: 1})
+		if !v.noTrie {
+			execute(prog, runCfg{Mode: modeTrie, ObsEvery: true, ObsAddrs: 1})
+		}
+		if v.trieCold && !v.noTrie {
+			execute(prog, runCfg{Mode: modeTrie, Cold: true, ColdTail: 1, ObsAddrs: 1})
+		}
+		for _, m := range v.snapModes {
+			execute(progS, runCfg{Mode: m, ObsEvery: true, ObsAddrs: 2})
+			if v.snapCold {
+				execute(progS, runCfg{Mode: m, Cold: true, ColdTail: 2, ObsAddrs: 2})
+			}
 		}
 	})
-	stages = append(stages, stageInfo{Name: name, Programs: total, Completed: done, Finished: done == total})
+	stages = append(stages, stageInfo{Name: name, Programs: total, Completed: done, Executed: atomic.LoadInt64(&cntPrograms) - before, Finished: done == total})
 	if done != total {
 		r.NotExhaustive(fmt.Sprintf("stage %s stopped after %d of %d sequences", name, done, total))
 	}
@@ -710,7 +811,7 @@ func replay() {
 		fmt.Println("MACHINERY-ERROR bad replay case:", err)
 		os.Exit(2)
 	}
-	c := runCfg{Mode: rc.Mode, ObsEvery: rc.ObsEvery, ObsAddrs: rc.ObsAddrs}
+	c := runCfg{Mode: rc.Mode, ObsEvery: rc.ObsEvery, ObsAddrs: rc.ObsAddrs, Cold: rc.Cold, ColdTail: rc.ColdTail}
 	fmt.Printf("replaying on the real StateDB (mode %s): %s\n", modeName[c.Mode], progString(prog))
 	f, ok := run(prog, c, nil) // the verdict comes from an undisturbed execution
 	fmt.Println("trace (a second execution, with all getters read after every step):")
@@ -735,6 +836,9 @@ func main() {
 		if strings.HasPrefix(strings.TrimLeft(a, "-"), "only") || strings.HasPrefix(strings.TrimLeft(a, "-"), "bench") {
 			os.Setenv("VERIF_NOEVIDENCE", "1") // a partial dev run never writes evidence
 		}
+	}
+	if os.Getenv("VERIF_C08_DEADLINE") != "" {
+		os.Setenv("VERIF_NOEVIDENCE", "1")
 	}
 	r = report.New("C08", "model_checking")
 	initUniverse()
@@ -780,29 +884,37 @@ func main() {
 	}
 
 	fins2 := [][]Op{nil, {{K: kCommit, V: 1}}}
-	trieOnly := func(p []Op) []int { return []int{modeTrie} }
+	devDeadline := time.Duration(0) // dev only: VERIF_C08_DEADLINE=<seconds> (measurements on a loaded machine; never writes evidence)
+	if v, err := strconv.Atoi(os.Getenv("VERIF_C08_DEADLINE")); err == nil && v > 0 {
+		devDeadline = time.Duration(v) * time.Second
+	}
 	if r.Quick() {
-		r.SetDeadline(42 * time.Second)
+		r.SetDeadline(120 * time.Second)
+		if devDeadline > 0 {
+			r.SetDeadline(devDeadline)
+		}
 		// smallest (cheapest) first
 		stageE2("E2:straight L=1 (all modes)", straight, 1, allModes)
 		stageE2("E2:straight L=2 (all modes)", straight, 2, allModes)
 		for L := 1; L <= 4; L++ {
-			stageInc(fmt.Sprintf("E3:incarnations L=%d (all modes)", L), L, allModes)
+			stageInc(fmt.Sprintf("E3:incarnations L=%d", L), L, svAll)
 		}
 		for L := 1; L <= 4; L++ {
-			stageSlots(fmt.Sprintf("E4:slot histories L=%d (all modes)", L), L, allModes)
+			stageSlots(fmt.Sprintf("E4:slot histories L=%d", L), L, svAll)
 		}
 		stageE1("E1:|P|=0,|B|=0", core, core, 0, 0, fins, false, false)
 		stageE1("E1:|P|=0,|B|=1 full", full, full, 0, 1, fins, true, false)
 		stageE1("E1:|P|=1 core x 7 finishers,|B|=1 core (+snap)", core, core, 1, 1, fins, true, true)
 		stageE1("E1:|P|=0,|B|=2 full", full, full, 0, 2, fins, false, false)
-		stageSlots("E4:slot histories L=5 (trie)", 5, trieOnly)
-		stageSlots("E4:slot histories L=6 (trie)", 6, trieOnly)
-		stageInc("E3:incarnations L=5 (trie)", 5, trieOnly)
+		stageSlots("E4:slot histories L=5", 5, svTrieSnapDiff)
+		stageSlots("E4:slot histories L=6", 6, svTrie)
+		stageInc("E3:incarnations L=5", 5, svTrieSnapDiff)
 		stageE1("E1:|P|=1 core x 7 finishers,|B|=2 core (+snap)", core, core, 1, 2, fins, false, true)
 		stageE2("E2:straight L=3 (snapshot modes after Commit/IntermediateRoot)", straight, 3, commitModes)
-		stageInc("E3:incarnations L=6 (trie)", 6, trieOnly)
-		stageSlots("E4:slot histories L=7 (trie)", 7, trieOnly)
+		stageMarkers("E5:destruct markers L=6", 6, svTrieSnapDiff)
+		stageInc("E3:incarnations L=6", 6, svTrie)
+		stageMarkers("E5:destruct markers L=7", 7, svSnapDiffHot)
+		stageSlots("E4:slot histories L=7", 7, svTrie)
 		stageE1("E1:|P|=1 full x 7 finishers,|B|=1 full (+snap)", full, full, 1, 1, fins, false, true)
 		stageE1("E1:|P|=1 core x {none,Commit},|B|=2 full", core, full, 1, 2, fins2, false, false)
 	} else {
@@ -810,13 +922,13 @@ func main() {
 		stageE2("E2:straight L=1 (all modes)", straight, 1, allModes)
 		stageE2("E2:straight L=2 (all modes)", straight, 2, allModes)
 		for L := 1; L <= 5; L++ {
-			stageInc(fmt.Sprintf("E3:incarnations L=%d (all modes)", L), L, allModes)
+			stageInc(fmt.Sprintf("E3:incarnations L=%d", L), L, svAll)
 		}
 		for L := 1; L <= 5; L++ {
-			stageSlots(fmt.Sprintf("E4:slot histories L=%d (all modes)", L), L, allModes)
+			stageSlots(fmt.Sprintf("E4:slot histories L=%d", L), L, svAll)
 		}
-		stageSlots("E4:slot histories L=6 (trie)", 6, trieOnly)
-		stageSlots("E4:slot histories L=7 (trie)", 7, trieOnly)
+		stageSlots("E4:slot histories L=6", 6, svTrieSnapDiff)
+		stageSlots("E4:slot histories L=7", 7, svTrie)
 		stageE1("E1:|P|=0,|B|=0", core, core, 0, 0, fins, false, false)
 		stageE1("E1:|P|=0,|B|=1 full nested", full, full, 0, 1, fins, true, false)
 		stageE1("E1:|P|=1 full x 7 finishers,|B|=1 full nested (+snap)", full, full, 1, 1, fins, true, true)
@@ -824,10 +936,12 @@ func main() {
 		stageE2("E2:straight L=3 (all modes)", straight, 3, allModes)
 		stageE1("E1:|P|=1 core x 7 finishers,|B|=2 core nested (+snap)", core, core, 1, 2, fins, true, true)
 		stageE1("E1:|P|=1 full x 7 finishers,|B|=2 full", full, full, 1, 2, fins, false, false)
-		stageInc("E3:incarnations L=6 (trie)", 6, trieOnly)
+		stageInc("E3:incarnations L=6", 6, svTrieSnapDiff)
 		stageE2("E2:straight L=4 (snapshot modes after Commit/IntermediateRoot)", straight, 4, commitModes)
-		stageInc("E3:incarnations L=7 (trie)", 7, trieOnly)
-		stageSlots("E4:slot histories L=8 (trie)", 8, trieOnly)
+		stageMarkers("E5:destruct markers L=7", 7, svAll)
+		stageMarkers("E5:destruct markers L=8", 8, svTrieSnapDiff)
+		stageInc("E3:incarnations L=7", 7, svTrie)
+		stageSlots("E4:slot histories L=8", 8, svTrie)
 		stageE1("E1:|P|=0,|B|=3 core nested", core, core, 0, 3, fins, true, false)
 		stageE1("E1:|P|=2 core x 7 finishers,|B|=1 core nested (+snap)", core, core, 2, 1, fins, true, true)
 		stageE1("E1:|P|=1 core x {none,Commit},|B|=3 core nested", core, core, 1, 3, fins2, true, false)
@@ -841,7 +955,7 @@ func main() {
 	}
 	processFailures()
 	for _, st := range stages {
-		fmt.Printf("stage %-55s %10d / %10d programs\n", st.Name, st.Completed, st.Programs)
+		fmt.Printf("stage %-78s %10d / %10d sequences, %9d executions\n", st.Name, st.Completed, st.Programs, st.Executed)
 	}
 	fmt.Printf("programs=%d infeasible=%d transitions=%d observations=%d states=%d failing=%d elapsed=%.1fs\n", cntPrograms, cntInfeasible, cntTransitions, cntObserves, distinctStates(), len(failings)+midTotal(), time.Since(t0).Seconds())
 
@@ -860,6 +974,8 @@ func main() {
 	r.Add("root_checks", cntRootChecks)
 	r.Add("readback_checks", cntReadbacks)
 	r.Add("copy_checks", cntCopyChecks)
+	r.Add("cross_backing_checks_snapshot_vs_trie", cntCrossBacking)
+	r.Add("cold_executions", cntColdProgs)
 	r.Add("fresh_replay_checks", cntFreshReplay)
 	perKind := map[string]int64{}
 	for k := Kind(0); k < numKinds; k++ {
@@ -877,7 +993,11 @@ func main() {
 		"each in trie mode and (where stated) with an in-memory snapshot tree kept as diff layers / flattened to the disk layer. "+
 		"E3 'incarnations': every sequence of the stated length over the 13 tokens {AddBalance(a0,1),Commit(t)+reopen,CreateAccount(a0),Suicide(a0),Finalise(t),IntermediateRoot(f/t),SetState(a0,s0,1/2/0),Snapshot,Revert(latest),Copy>copy} closed by Commit(true)+reopen, all getters of a0 compared with the model after every token; "+
 		"E4 'multi-transaction slot histories': every sequence of the stated length over the 10 tokens {SetState(a0,s0,0/1/2),SetState(a0,s1,1),Snapshot,Revert(latest),Revert(oldest),Finalise(f),IntermediateRoot(f),Commit(f)+reopen}, from two bases (empty state = fresh slot; SetState(a0,s0,1);Commit(f) = slot in the committed trie), closed by Commit(false)+reopen, same per-token comparison; "+
-		"in E3/E4 a model-only pre-pass drops infeasible sequences and sequences containing a token that is a no-op by the model at that point (covered by a shorter sequence of the stage), an unused Snapshot, or a Copy with a non-empty journal (F1 is decided in E2); the dropped sequences are counted. Programs whose next token is infeasible (SubBalance/SubRefund below zero, Revert without a valid revision) are skipped and counted. "+
+		"E5 'destruct markers under a snapshot tree': the 8-token sub-alphabet {AddBalance(a0,1),SetState(a0,s0,1),Commit(t)+reopen,CreateAccount(a0),Suicide(a0),Finalise(t),Snapshot,Revert(latest)} of E3 at depth 6-7 (thorough 8) with a snapshot tree attached (both polarities of the per-block destruct marker: CreateAccount over an existing account inside a reverted snapshot, and over an account destructed earlier in the same block). "+
+		"Execution variants of E3/E4/E5 (named per stage): 'hot' = all getters after every token; 'cold' = the same program but NO getter is called before the end of the sequence (observations warm originStorage / the live-object set and can hide a wrong read path), oracles then: model at the end of the sequence, roots at every IntermediateRoot/Commit, read-back after the last Commit; "+
+		"snapshot-mode executions of E3/E4/E5 append AddBalance(a1,1) before the closing Commit and E1's snapshot-mode executions are run a second time with AddBalance(a2,1) inserted before the closing Commit (a change of ANOTHER account makes the commit a state transition, so the block's destruct set and account/storage maps always reach the snapshot tree - Commit skips snaps.Update when the root is unchanged). "+
+		"Cross-backing oracle: after every observed Commit in a snapshot mode the StateDB reopened WITH the snapshot tree must show exactly what a StateDB opened at the same root WITHOUT it shows (and both what the model shows); the history continues on the snapshot-backed object and every later root is compared with the reference root and with the trie-only content-built / fresh-replay roots. "+
+		"in E3/E4/E5 a model-only pre-pass drops infeasible sequences and sequences containing a token that is a no-op by the model at that point (covered by a shorter sequence of the stage), an unused Snapshot, or a Copy with a non-empty journal (F1 is decided in E2); the dropped sequences are counted. Programs whose next token is infeasible (SubBalance/SubRefund below zero, Revert without a valid revision) are skipped and counted. "+
 		"states = distinct reference-model states reached (fingerprints); transitions = tokens executed on the real StateDB; a revert check is non-trivial when the model state differed from the snapshot before the revert.")
 	r.Assume(
 		"the reference root is computed with go-ethereum v1.9.15 trie/rlp/keccak over rlp([nonce,balance,storageRoot,codeHash]); the repository's trie itself is C07's subject",
@@ -887,6 +1007,8 @@ func main() {
 		"Finalise clears the refund counter only when the journal is non-empty (go-ethereum definition); logs, access list, transient storage and preimages live until the StateDB is reopened",
 	)
 	if *only == "" {
+		r.Require(cntCrossBacking > 0, "no snapshot-vs-trie cross-backing check ran")
+		r.Require(cntColdProgs > 0, "no cold execution ran")
 		r.Require(cntModelMoved > 0, "the reference model never left its initial state")
 		r.Require(cntRevNontriv > 0, "no revert had anything to undo")
 		r.Require(cntReadbacks > 0, "no committed state was read back")
